@@ -5,12 +5,13 @@ from evalutil import *
 
 ID = "C12"
 LEVEL = "proof"
-MODULES = ["H3Proofs.Props.C12", "H3Proofs.Props.C04Gen", "H3Proofs.Props.C05Gen", "H3Proofs.Props.C01", "H3Proofs.Props.C01Lnz", "H3Proofs.Props.C01Rot", "H3Proofs.Props.C10Gen"]
+MODULES = ["H3Proofs.Props.C12", "H3Proofs.Props.C04Gen", "H3Proofs.Props.C05Gen", "H3Proofs.Props.C01", "H3Proofs.Props.C01Lnz", "H3Proofs.Props.C01Rot", "H3Proofs.Props.C10Gen", "H3Proofs.Props.C13Gen"]
 THEOREMS = "auto"
 ASSUMPTIONS = ["undefined behaviour, stray accesses and uninitialised reads in the C text are invisible to a Lean "
                "model: the model proves the decision logic / guards / bounds of the modelled core; the real code is "
                "observed under ASan + UBSan with assertions (NEVER/ALWAYS) live and exact-size heap buffers on the "
                "generated inputs — that half is dynamic checking, not proof"]
+ASSUMPTIONS.append('for the functions translated from the C text (isValidCell and helpers, the bit macros, _zeroIndexDigits, _h3LeadingNonZeroDigit, _h3Rotate60ccw/cw, _h3RotatePent60ccw/cw, isPentagon, cellToParent, cellToCenterChild, cellToChildrenSize, setH3Index, getDirectedEdgeOrigin, isValidDirectedEdge, maxFaceCount) absence of undefined shifts, signed overflow, division traps, out-of-range table reads and exhausted loop bounds on every path IS a theorem (*_defined_all in C01, C01Lnz, C01Rot, C04Gen, C05Gen, C10Gen), relative to the translator')
 NOT_PROVED = ["absence of UB / out-of-bounds access in the C text (sanitizer-observed only)",
               "geometry-heavy entry points (polygonToCells*, cellsToLinkedMultiPolygon, cellToBoundary, areas) are "
               "covered by the dynamic half only"]
